@@ -15,8 +15,13 @@ import traceback
 from pathlib import Path
 
 VERIF = Path(__file__).resolve().parent.parent
-EVIDENCE = VERIF / "evidence"
-REPLAYS = VERIF / "replays"
+REPO = os.environ.get("VERIF_REPO_OVERRIDE") or "/repo"
+if REPO != "/repo":  # trying a seeded change in a scratch worktree: keep /verif's evidence and replays untouched
+    _scratch = Path("/dev/shm") / ("verif-try-" + REPO.strip("/").replace("/", "_"))
+    EVIDENCE, REPLAYS = _scratch / "evidence", _scratch / "replays"
+else:
+    EVIDENCE = VERIF / "evidence"
+    REPLAYS = VERIF / "replays"
 FINDINGS = VERIF / "known_findings.json"
 
 
@@ -117,8 +122,8 @@ class Run:
     # ---- finish ---------------------------------------------------------
     def finish(self, level="model_checking") -> int:
         wall = time.time() - self.t0
-        EVIDENCE.mkdir(exist_ok=True)
-        REPLAYS.mkdir(exist_ok=True)
+        EVIDENCE.mkdir(parents=True, exist_ok=True)
+        REPLAYS.mkdir(parents=True, exist_ok=True)
         lines = []
         for fid, k in sorted(self.known.items()):
             lines.append(f"KNOWN-FINDING: property={self.prop} {fid} {k['finding']['what']} (reproduced {k['count']}x)")
@@ -192,7 +197,7 @@ def assert_repo_tree():
     import dvc_data
 
     p = os.path.realpath(dvc_data.__file__)
-    if not p.startswith("/repo/src/"):
+    if not p.startswith(REPO + "/src/"):
         from .tlc import MachineryError
 
-        raise MachineryError(f"dvc_data imported from {p}, expected /repo/src")
+        raise MachineryError(f"dvc_data imported from {p}, expected {REPO}/src")
